@@ -23,7 +23,13 @@ Definition out_pval (r : cres pval) : bytes :=
   | CExn e => out_cexn e
   end.
 Definition out_codec (c : option codec_id) : bytes :=
-  match c with Some CUtf8 => lit "utf-8" | Some CLatin1 => lit "iso8859-1" | Some CAscii => lit "ascii" | None => lit "EXN:LookupError" end.
+  match c with
+  | Some CUtf8 => lit "utf-8" | Some CLatin1 => lit "iso8859-1" | Some CAscii => lit "ascii"
+  | Some CUtf16 => lit "utf-16" | Some CUtf16LE => lit "utf-16-le" | Some CUtf16BE => lit "utf-16-be"
+  | Some CUtf32 => lit "utf-32" | Some CUtf32LE => lit "utf-32-le" | Some CUtf32BE => lit "utf-32-be"
+  | Some CCp1252 => lit "cp1252" | Some CKoi8R => lit "koi8-r"
+  | None => lit "EXN:LookupError"
+  end.
 
 (* two results in one line: <length of the first>|<first><second> *)
 Definition pair_out (x y : bytes) : bytes := out_N (blen x) ++ [124%N] ++ x ++ y.
